@@ -267,10 +267,10 @@ private:
     template <class T> void send_impl(int dest, int tag, const T& v, std::true_type) const { detail::W().send(ctx_, dest, tag, &v, sizeof(T), true, 0); }
     template <class T> void send_impl(int dest, int tag, const T& v, std::false_type) const { std::string s = detail::pack(v); detail::W().send(ctx_, dest, tag, s.data(), s.size(), true, 0); }
     template <class T> request isend_impl(int dest, int tag, const T& v, std::true_type) const { sim::ReqPtr r; detail::W().send(ctx_, dest, tag, &v, sizeof(T), false, &r); return request(r); }
-    template <class T> request isend_impl(int dest, int tag, const T& v, std::false_type) const { sim::ReqPtr r; std::string s = detail::pack(v); detail::W().send(ctx_, dest, tag, s.data(), s.size(), false, &r); return request(r); }
+    template <class T> request isend_impl(int dest, int tag, const T& v, std::false_type) const { sim::ReqPtr r; std::string s = detail::pack(v); detail::W().send(ctx_, dest, tag, s.data(), s.size(), false, &r, /*buffer_owned_by_caller=*/false); return request(r); }
     template <class T> void array_send_impl(int dest, int tag, const T* v, int n, std::true_type, bool blocking, sim::ReqPtr* r) const { detail::W().send(ctx_, dest, tag, v, sizeof(T) * (size_t)n, blocking, r); }
     template <class T> void array_send_impl(int dest, int tag, const T* v, int n, std::false_type, bool blocking, sim::ReqPtr* r) const {
-        std::vector<T> tmp(v, v + n); std::string s = detail::pack(tmp); detail::W().send(ctx_, dest, tag, s.data(), s.size(), blocking, r);
+        std::vector<T> tmp(v, v + n); std::string s = detail::pack(tmp); detail::W().send(ctx_, dest, tag, s.data(), s.size(), blocking, r, /*buffer_owned_by_caller=*/false);
     }
     template <class T> request irecv_impl(int source, int tag, T& v, std::true_type) const { return request(detail::W().post_recv(ctx_, source, tag, (char*)&v, sizeof(T), false, nullptr)); }
     template <class T> request irecv_impl(int source, int tag, T& v, std::false_type) const {
